@@ -448,14 +448,31 @@ int harnessMain(int argc, char** argv, const HarnessDef& def) {
   };
 
   if (mode == "fixed") {
+    // enumerated cases; --from K resumes, VP_SLICE=i/n shards, VP_STRIDE=m samples
+    long from = atol(argOf(argc, argv, "--from", "0").c_str());
+    long si = 0, sn = 1, stride = 1;
+    if (const char* sl = getenv("VP_SLICE")) sscanf(sl, "%ld/%ld", &si, &sn);
+    if (const char* st = getenv("VP_STRIDE")) stride = std::max(1L, atol(st));
+    long total = 0, next = -1;
     if (def.fixed) {
-      for (auto& c : def.fixed()) {
+      auto cases = def.fixed();
+      total = (long)cases.size();
+      for (long idx = from; idx < total; idx++) {
+        if ((idx / stride) % sn != si || idx % stride != 0) continue;
+        Json::Value c = cases[idx];
+        c["_idx"] = (Json::Int64)idx;
         Verdict v = runOne(c);
-        if (!v.ok && !v.discard) break;
+        if (!v.ok && !v.discard) {
+          next = idx + 1;
+          break;
+        }
       }
     }
+    camp.extra["total_cases"] = (Json::Int64)total;
+    camp.extra["next_index"] = (Json::Int64)next;
+    bool failedNow = camp.failed;
     writeOut();
-    finish(camp.failed ? 3 : 0);
+    finish(failedNow ? 3 : 0);
   }
 
   if (mode == "gen") {
